@@ -38,8 +38,12 @@ def emitted_codes(repo, ci):
     if info[0] == "proj" and is_call(info[1], MH) and info[2] == 0:
         mh = repo.func(MH)
         rm = evaluate(repo, mh).ret()
-        inf = rm[1][0]
+        inf = rm[1][0] if rm is not None and rm[0] == "tuple" and rm[1] else None
+        if inf is None or inf[0] != "call":
+            return None, "mh_step does not return (info, state) with a constructed info"
         code = kw(inf, "error_code", 0)
+        if code is None:
+            return None, "mh_step info has no error_code"
         # proj(cond(isnan, (..., c1), (..., c0)), 1)
         if code[0] == "proj" and code[2] == 1:
             p = cond_parts(code[1])
@@ -203,6 +207,35 @@ def check(ctx):
         if ok_post:
             sts = [loc for loc, val, _, _ in rm.stores if val == reps[0]]
             ok_post = len(sts) == 1 and sts[0][0] == "s" and sts[0][2] == ecv
+        if ok_post:
+            # ... for every non-zero code, whenever a posterior log exists
+            rcond = [cd for t, _, cd in rm.calls if t == reps[0]][0]
+            guard = [(a, p_) for a, p_ in rcond if a[0] != "inloop"]
+            is_some = ("call", ("a", n("posterior_error_log"), "is_some"), (), ())
+            ok_post = sorted(guard, key=str) == sorted(
+                [(is_some, True), (("cmp", "==", ecv, c(0)), False)], key=str)
+        # the per-code record: (code, message of that code, overall count, None), stored
+        # under the code, and the kernel's dict stored under the kernel's identifier
+        recs = [(loc, val) for loc, val, _, _ in rm.stores
+                if is_call(val, "liesel.goose.summary_m.ErrorSummaryForOneCode")]
+        ok_rec = False
+        if len(recs) == 1 and tot:
+            loc, val = recs[0]
+            cdict = [l_ for l_, v_, _, _ in rm.stores if v_ == want_tot][0][1]
+            item = ("iter", ("call", ("a", cdict, "items"), (), ()))
+            code_t, count_t = ("proj", item, 0), ("proj", item, 1)
+            ok_rec = (loc[0] == "s" and loc[2] == code_t
+                      and kw(val, "error_code", 0) == code_t
+                      and kw(val, "count_per_chain", 2) == count_t
+                      and kw(val, "count_per_chain_posterior", 3) == c(None)
+                      and any(x == ("s", ("a", n("krn_cls"), "error_book"), code_t)
+                              for x in subterms(kw(val, "error_msg", 1) or ()))
+                      and any(l_[0] == "s" and l_[2] == ("a", kel, "kernel_ident") and v_ == loc[1]
+                              for l_, v_, _, _ in rm.stores))
+        ctx.ob("C19.R2", mes, "each record is (code, that code's message, that code's overall "
+                              "count, None) stored under the code; the kernel's records are "
+                              "stored under the kernel's identifier", ok_rec,
+               stmt="error record")
         msgs = [t for t, _, _ in rm.calls if t[0] == "call" and t[1][0] == "a"
                 and t[1][2] == "map_or" and t[1][1] == ("a", kel, "kernel_cls")]
         ok_msg = (len(msgs) == 1 and len(msgs[0][2]) == 2 and msgs[0][2][1][0] == "lambda"
